@@ -10,6 +10,7 @@ under arbitrary (pd_start, pd_stop) partitions: bit-identical result buffers.
 harness builds.
 """
 import math
+import os
 
 import numpy as np
 from hypothesis import strategies as st
@@ -114,6 +115,18 @@ def close(got, ref, scale_ref, tol=TOL):
     if np.any(~np.isfinite(got[fin])) or np.max(err) > bound:
         return "max abs err %.3g > %.3g: got %r expected %r" % (np.max(err), bound, got, ref)
     return None
+
+
+def contrast_scale(info, pars, volume):
+    """Magnitude of the terms a contrast-weighted amplitude is built from: scale * 1e-4 * max|sld_i - sld_j|^2 * V.
+
+    A particle whose components cancel exactly (core SLD equal to the solvent's and zero-thickness shells)
+    returns pure rounding noise, some 1e-16 of this magnitude squared away from zero; comparisons add
+    1e-14 of it as an absolute floor so that two noise values are not compared with each other."""
+    slds = [float(pars.get(n, p.default)) for n, p in S.expanded_parameters(info) if p.type == "sld"]
+    if len(slds) < 2 or not np.isfinite(volume):
+        return 0.0
+    return abs(pars.get("scale", 1.0)) * 1e-4 * (max(slds) - min(slds)) ** 2 * abs(volume)
 
 
 def classify_mesh(mesh, pars):
@@ -316,9 +329,21 @@ def run_shard(ctx, spec):
                     shrink_examples=min(per, 60))
 
 
+_COST = {}
+
+
 def eval_time(name):
-    """Measured cost of one single-particle evaluation (sizes the mesh cap of slow models)."""
+    """Cost of one single-particle evaluation in seconds (sizes the mesh cap of slow models).
+
+    Read from vp/model_cost.json (measured once on an idle machine, one significant digit) so that the
+    generated cases do not depend on the load of the machine; measured only for models not in the table."""
+    import json
     import time
+    if not _COST:
+        with open(os.path.join(os.path.dirname(os.path.dirname(os.path.abspath(__file__))), "model_cost.json")) as fh:
+            _COST.update(json.load(fh))
+    if name in _COST:
+        return _COST[name]
     shim = oraclelib.get_shim(name, _workdir())
     P = shim.pvec({})
     q = np.array([0.05])
